@@ -10,6 +10,7 @@ package c13
 import (
 	"context"
 	"fmt"
+	"math"
 	"strings"
 	"sync"
 	"testing"
@@ -164,6 +165,8 @@ func runDiff(ops []Op) diffOut {
 			case nm == nw && (op.Kind == "GetHash" || op.Kind == "GetAllHash") && gr.Err == "" && gm.Err == "" &&
 				canon(normList(gm.V), false) == canon(normList(gr.V), false):
 				out.key = "C13/redis-hash/integer-field-read-back-as-float64"
+			case nm == nw && (op.Kind == "GetHash" || op.Kind == "GetAllHash" || op.Kind == "GetList") && gr.Err == "" && gm.Err == "":
+				out.key = "C13/redis-decode/" + op.Kind + "/member-value-differs-from-what-was-stored"
 			case nm == nw:
 				out.key = fmt.Sprintf("C13/redis/%s/on=%s/memory-and-model=%s/redis=%s", opTag(op), coarse(class, gr, want), shortForm(nm), shortForm(nr))
 			default:
@@ -179,6 +182,9 @@ func runDiff(ops []Op) diffOut {
 			return out
 		}
 		note(out.feats, op, class, want)
+		if bigInts(want.V) && (op.Kind == "GetHash" || op.Kind == "GetAllHash" || op.Kind == "GetList" || op.Kind == "Get") {
+			out.feats["diff:"+op.Kind+"-returns-integer-beyond-2^53"] = true
+		}
 		if strings.HasPrefix(class, "expired-") {
 			out.feats["diff:"+op.Kind+"-after-expiry"] = true
 		}
@@ -243,13 +249,34 @@ type diffKey struct {
 	name, kind string
 }
 
-var diffKeys = []diffKey{{"s1", "scalar"}, {"s2", "scalar"}, {"l1", "list"}, {"l2", "list"}, {"h1", "hash"}, {"c1", "counter"}}
+var diffKeys = []diffKey{{"s1", "scalar"}, {"s2", "scalar"}, {"n1", "intscalar"}, {"l1", "list"}, {"l2", "list"}, {"h1", "hash"}, {"h1", "hash"}, {"c1", "counter"}}
+
+// integers at the edges of what survives a trip through JSON / float64
+var edgeInts = []int64{
+	0, -1, 42, 1<<31 - 1, 1 << 31, -(1 << 31) - 1, 1 << 40,
+	1<<53 - 1, 1 << 53, 1<<53 + 1, -(1<<53 + 1), 1<<53 + 3, 1<<62 + 12345,
+	math.MaxInt64, math.MaxInt64 - 1, math.MinInt64, math.MinInt64 + 1,
+}
+
+func genEdgeInt(t *rapid.T, label string) *Val {
+	return iv(rapid.SampledFrom(edgeInts).Draw(t, label))
+}
+
+// genMember: list members are strings or exact int64 (other integer kinds would change
+// RemoveFromList's equality: memory compares Go values, Redis the JSON text).
+func genMember(t *rapid.T, label string) *Val {
+	if rapid.IntRange(0, 3).Draw(t, label+"Int") == 0 {
+		return genEdgeInt(t, label+"Edge")
+	}
+	return genDiffStr(t, label)
+}
 
 var diffKinds = map[string][]string{
-	"scalar":  {"Set", "Set", "Get", "Get", "Delete", "Exists", "SetNX", "SetNX", "CompareAndSwap", "CompareAndSwap", "CompareAndSwap", "SetExpiration", "GetExpiration"},
-	"list":    {"SetList", "GetList", "GetList", "AppendToList", "AppendToList", "AppendToList", "RemoveFromList", "RemoveFromList", "Delete", "Exists"},
-	"hash":    {"SetHash", "SetHash", "SetHash", "GetHash", "GetAllHash", "DeleteHash", "Delete", "Exists"},
-	"counter": {"Incr", "Incr", "IncrBy", "Get", "Delete", "Exists"},
+	"intscalar": {"Set", "Set", "Get", "Get", "Delete", "Exists", "SetNX", "CompareAndSwap", "CompareAndSwap"},
+	"scalar":    {"Set", "Set", "Get", "Get", "Delete", "Exists", "SetNX", "SetNX", "CompareAndSwap", "CompareAndSwap", "CompareAndSwap", "SetExpiration", "GetExpiration"},
+	"list":      {"SetList", "GetList", "GetList", "AppendToList", "AppendToList", "AppendToList", "RemoveFromList", "RemoveFromList", "Delete", "Exists"},
+	"hash":      {"SetHash", "SetHash", "SetHash", "GetHash", "GetHash", "GetHash", "GetAllHash", "GetAllHash", "DeleteHash", "Delete", "Exists"},
+	"counter":   {"Incr", "Incr", "IncrBy", "Get", "Delete", "Exists"},
 }
 
 var diffStr = []string{"a", "b", "7", `{"id":1}`, `{"id":2,"s":"x y"}`, "héllo<&>", "lock-owner:1700000000"}
@@ -265,6 +292,26 @@ func genDiffOp(t *rapid.T, shadow map[string]kstate) Op {
 	k := rapid.SampledFrom(diffKeys).Draw(t, "key")
 	op := Op{Kind: rapid.SampledFrom(diffKinds[k.kind]).Draw(t, "op"), Key: k.name}
 	cur := shadow[k.name]
+	if k.kind == "intscalar" {
+		// a scalar key that only ever holds int64 (mixing "7" and 7 under one key would compare
+		// Go values on memory and text on Redis; no caller does)
+		switch op.Kind {
+		case "Set", "SetNX":
+			op.Val = genEdgeInt(t, "val")
+			op.TTL = rapid.SampledFrom(ttlPool).Draw(t, "ttl")
+		case "CompareAndSwap":
+			if c := rapid.IntRange(0, 9).Draw(t, "oldClass"); c < 6 && cur.Present {
+				op.Old = valOf(cur.V)
+			} else if c == 9 {
+				op.Old = nil
+			} else {
+				op.Old = genEdgeInt(t, "old")
+			}
+			op.Val = genEdgeInt(t, "new")
+			op.TTL = rapid.SampledFrom([]string{ttlZero, ttlZero, ttlLong}).Draw(t, "ttl")
+		}
+		return op
+	}
 	switch op.Kind {
 	case "Set", "SetNX":
 		op.Val = genDiffStr(t, "val")
@@ -286,29 +333,79 @@ func genDiffOp(t *rapid.T, shadow map[string]kstate) Op {
 	case "SetList":
 		n := rapid.IntRange(0, 4).Draw(t, "n")
 		for i := 0; i < n; i++ {
-			op.Vals = append(op.Vals, *genDiffStr(t, "elem"))
+			op.Vals = append(op.Vals, *genMember(t, "elem"))
 		}
 		op.TTL = rapid.SampledFrom(ttlPool).Draw(t, "ttl")
 	case "AppendToList":
-		op.Val = genDiffStr(t, "val")
+		op.Val = genMember(t, "val")
 	case "RemoveFromList":
-		op.Val = genDiffStr(t, "val")
+		op.Val = genMember(t, "val")
 		if l, ok := cur.V.([]any); ok && len(l) > 0 && rapid.Bool().Draw(t, "member") {
 			op.Val = valOf(l[rapid.IntRange(0, len(l)-1).Draw(t, "idx")])
 		}
 	case "SetHash":
 		op.Field = rapid.SampledFrom(fieldPool).Draw(t, "field")
-		if rapid.Bool().Draw(t, "intValue") {
+		switch rapid.IntRange(0, 5).Draw(t, "intValue") {
+		case 0, 1:
 			op.Val = iv(int64(rapid.IntRange(0, 100000).Draw(t, "count"))) // stats counters store int64 fields
-		} else {
+		case 2, 3:
+			op.Val = genEdgeInt(t, "edge")
+		case 4:
+			// other integer kinds: compared as "integer with this exact value" (stats readers accept
+			// int64 and int; memory hands back the stored kind, Redis always int64 - not asserted)
+			kind := rapid.SampledFrom([]string{"int", "i32", "u"}).Draw(t, "goKind")
+			n := rapid.SampledFrom(edgeInts).Draw(t, "edge")
+			switch kind {
+			case "i32":
+				n = int64(int32(n))
+			case "u":
+				if n < 0 {
+					n = -(n + 1)
+				}
+			}
+			op.Val = &Val{T: kind, I: n}
+		default:
 			op.Val = genDiffStr(t, "val")
 		}
 	case "GetHash", "DeleteHash":
 		op.Field = rapid.SampledFrom(fieldPool).Draw(t, "field")
+		if h, ok := cur.V.(map[string]any); ok && op.Kind == "GetHash" && rapid.IntRange(0, 3).Draw(t, "present") > 0 {
+			for _, f := range fieldPool { // first field that holds a value (pool order: deterministic)
+				if _, has := h[f]; has {
+					op.Field = f
+					break
+				}
+			}
+		}
 	case "IncrBy":
 		op.N = int64(rapid.IntRange(1, 10).Draw(t, "delta"))
 	}
 	return op
+}
+
+// bigInts: v holds an integer that float64 cannot represent exactly or that sits at the int64 limits.
+func bigInts(v any) bool {
+	switch x := v.(type) {
+	case int64:
+		return x > 1<<53 || x < -(1<<53)
+	case int:
+		return bigInts(int64(x))
+	case uint:
+		return x > 1<<53
+	case []any:
+		for _, e := range x {
+			if bigInts(e) {
+				return true
+			}
+		}
+	case map[string]any:
+		for _, e := range x {
+			if bigInts(e) {
+				return true
+			}
+		}
+	}
+	return false
 }
 
 func isEmptyContainer(st kstate) bool {
